@@ -1,5 +1,6 @@
 SPECIFICATION Spec
 CONSTANTS
+  Quick = FALSE
   MaxSeg = 3
   MaxDepth = 3
   Mut = "none"
